@@ -82,6 +82,7 @@ class Rec:
         kw.setdefault('present', False)
         kw.setdefault('tw15', 0)
         kw.setdefault('complete', True)
+        kw.setdefault('expect', dict(attrs=[], hasText=False, text=[]))
         self.out.append(kw)
         return kw['id']
 
@@ -132,8 +133,11 @@ def run_elem(R, J, name, tokens, full, reduced):
                 em = emitted(text)
             except Exception:  # noqa
                 em = dict(attrs=[['!unparsable', []]], text=[])
+        expect = dict(attrs=sorted([[str(k), cps(v)] for k, v in e.attributes.items() if isinstance(v, str)]),
+                      hasText=isinstance(e.value_, str) and kind == 'simple' or (isinstance(e.value_, str) and e.value_ != '' and st != ''),
+                      text=cps(e.value_) if isinstance(e.value_, str) else [])
         return R.emit(op='tostring', surface='', res=res, pre=pre, post=R.state(e), em=em, parent=parent,
-                      complete=not lenient, **base)
+                      complete=not lenient, expect=expect, **base)
 
     def setattr_dot(e, py, tok, parent):
         v = pyvalue(tok)
